@@ -340,7 +340,40 @@ pub fn record(corpus_dir: &str, patterns_file: &str, mode: &str, per_program: us
                         out.evaluations += 1;
                         let inj2 = gaps2.iter().enumerate().all(|(j, g)| j == 0 || j == n || g.iter().map(|c| atom_lf(*c)).sum::<usize>() >= 1);
                         trace.push(&json!({"k": "layout", "src": name, "variant": format!("{}-twin", vname), "n": n, "inj": inj2, "gaps": gaps2, "inner": inner, "dets": drecs2}));
-                        texts.push(&json!({"src": name, "variant": format!("{}-twin", vname), "text": text2, "canon": canon}));
+                        texts.push(&json!({"src": name, "variant": format!("{}-twin", vname), "text": text2, "canon": canon, "prev": text}));
+                    }
+                }
+                {
+                    let glen = |g: &Vec<u8>| g.iter().map(|c| atom_text(*c).len()).sum::<usize>();
+                    // a second twin: the SAME bytes in another arrangement -- the longest gap of the first half and the
+                    // shortest gap of the second half exchanged, so that every token between them moves (equal length, equal
+                    // byte sums, other offsets): a result must not be remembered under a digest of the text
+                    let cand: Vec<usize> = (1..n).filter(|j| !(ctoks.pragma_value[*j] || ctoks.pragma_value[*j - 1])).collect();
+                    let a = cand.iter().cloned().filter(|j| *j < n / 2).max_by_key(|j| glen(&gaps[*j]));
+                    let b = cand.iter().cloned().filter(|j| *j >= n / 2).min_by_key(|j| glen(&gaps[*j]));
+                    if let (Some(a), Some(b), true) = (a, b, i >= 4) {
+                        let mut gaps3 = gaps.clone();
+                        gaps3.swap(a, b);
+                        let text3 = render_with(&canon, &ctoks, &gaps3, false, pragma_ws);
+                        if glen(&gaps[a]) != glen(&gaps[b]) && text3.len() == text.len() && parses(&text3) && same_tokens(&canon, &ctoks, &text3) {
+                            // (analysed right after the text it is a rearrangement of)
+                            for d in dets.iter().take(1) {
+                                let _ = d.run(&text);
+                            }
+                            let mut drecs3 = vec![];
+                            for (di, d) in dets.iter().enumerate() {
+                                if let (Some(fl), Ok(rep)) = (&flags[di], d.run(&text3)) {
+                                    let rep: Vec<i32> = rep.into_iter().collect();
+                                    if !fl.is_empty() || !rep.is_empty() {
+                                        drecs3.push(json!({"d": d.name(), "F": fl, "rep": rep}));
+                                    }
+                                }
+                            }
+                            out.evaluations += 1;
+                            let inj3 = gaps3.iter().enumerate().all(|(j, g)| j == 0 || j == n || g.iter().map(|c| atom_lf(*c)).sum::<usize>() >= 1);
+                            trace.push(&json!({"k": "layout", "src": name, "variant": format!("{}-twin2", vname), "n": n, "inj": inj3, "gaps": gaps3, "inner": inner, "dets": drecs3}));
+                            texts.push(&json!({"src": name, "variant": format!("{}-twin2", vname), "text": text3, "canon": canon, "prev": text}));
+                        }
                     }
                 }
                 if out.samples.len() < 2 && i == 3 {
@@ -367,7 +400,12 @@ pub fn replay_case(case: &Value, trace: &mut NdjsonWriter, out: &mut Outcome) {
     };
     out.evaluations += 1;
     let via_dir = case["entry"].as_str() == Some("dir");
-    match (d.run(canon), d.run_entry(text, via_dir)) {
+    // a twin was analysed right after the text it rearranges
+    let flags = d.run(canon);
+    if let Some(prev) = case["prev"].as_str() {
+        let _ = d.run(prev);
+    }
+    match (flags, d.run_entry(text, via_dir)) {
         (Ok(f), Ok(rep)) => {
             let f: Vec<i32> = f.into_iter().collect();
             let rep: Vec<i32> = rep.into_iter().collect();
